@@ -17,8 +17,8 @@ from . import common, lexlib
 from .common import log
 
 NSYM = 49
-RECORD_COUNT = {"quick": 1500, "thorough": 12000}
-SIM_TRACES = 1500
+RECORD_COUNT = {"quick": 1500, "thorough": 8000}
+SIM_TRACES = 300
 
 RULE_TEXT = (
     "spec->impl: TLC enumerates EVERY text of up to N symbols (N=3 quick, N=4 thorough) over 49 lexically significant "
